@@ -7,7 +7,8 @@ Every combination of <= d blocks (d=1 quick, d=2 thorough) away from the base ke
 transformation variants of the template (all variants for <= 1 block, the PRIMARY ones for pairs) is
 built twice with gfortran -O0 -fcheck=bounds (original / transformed) against the same harness-owned
 driver PROGRAM (3 inputs: n=4,5,6, x=0.5,1,2, k=1,2,3) and the printed outputs (every dummy of the
-kernel) are compared.  The variants of one program share one build of the original; a variant that leaves
+kernel) are compared.  Builds go through vf.xfast.merged_build_run (the units of a case concatenated into one file,
+one compiler process; results memoised by exact program text).  The variants of one program share one build of the original; a variant that leaves
 the generated text byte-identical to the plain parse/fgen round trip is counted unchanged-ok without a
 second build (that text is C01's business).  Exact dyadic reals, integer
 division only where truncation is the point.  Recursion is excluded (property statement).
@@ -61,12 +62,13 @@ Switch list (derived from the code; one block per branch/shortcut)
 Weaker readings: an explicit refusal (NotImplementedError, error with "cannot/not supported") is counted, not a
 violation; a warning followed by unchanged code (elemental function with array arguments) is fine; a warning followed by
 wrong code is a violation.  Utilities are judged on their own output (no dead-code removal added by the harness);
-the 'trafo' family with remove_dead_code=True is judged separately, so a finding that only exists without dead-code
-removal is visible as such in its signature (xform=int/mark/fn, not xform=trafo).
+the 'trafo' family of the five entry-point templates keeps remove_dead_code=True, so a finding that only exists without
+dead-code removal is visible as such in its signature (xform=int/mark/fn, not xform=trafo); only the option product of the
+all-in-one kernel (xform=trafo-all) switches dead-code removal off.
 """
 import itertools
 
-from vf import xform
+from vf import xform, xfast
 from vf.explore import deviations, seeded_order
 
 PROPERTY = 'C28'
@@ -1333,7 +1335,7 @@ TEMPLATES = {'int': P_BLOCKS, 'mark': P_BLOCKS, 'fn': F_BLOCKS, 'stmt': S_BLOCKS
 XFORMS = {
     'int': [('int', {}), ('int', dict(allowed_aliases=['ia'])),
             ('trafo', dict(inline_internals=True)),
-            ('trafo', dict(inline_internals=True, remove_dead_code=False, resolve_sequence_association=True))],
+            ('trafo', dict(inline_internals=True, resolve_sequence_association=True))],
     'mark': [('mark', dict(adjust_imports=True)), ('mark', dict(adjust_imports=False)),
              ('trafo', dict(inline_marked=True)),
              ('trafo', dict(inline_marked=True, adjust_imports=False, resolve_sequence_association=True,
@@ -1531,7 +1533,7 @@ def judge(case, orig=None, base=None):
     if orig is None:
         key = repr((case['sources'], case['driver']))
         if key not in _ORIG:  # replays of one process: the harness-owned original is built once
-            _ORIG[key] = xform.build_run(case['sources'], case['driver'], case.get('extra', ()), base=base)
+            _ORIG[key] = xfast.merged_build_run(case['sources'], case['driver'], case.get('extra', ()), base=base)
         orig = _ORIG[key]
     if not orig['ok']:
         return dict(verdict='HARNESS', detail=f'original fails at {orig["stage"]}: {orig["err"][-600:]}', changed=False)
@@ -1550,7 +1552,7 @@ def judge(case, orig=None, base=None):
     if not changed:
         # byte-identical to the untransformed round trip, which C01 covers: nothing to judge here
         return dict(verdict='unchanged-ok', detail='', changed=False)
-    res = xform.build_run(new, case['driver'], case.get('extra', ()), base=base)
+    res = xfast.merged_build_run(new, case['driver'], case.get('extra', ()), base=base)
     out = dict(changed=changed)
     if not res['ok']:
         kind = 'xform-compile-error' if res['stage'] == 'compile' else 'xform-run-error'
@@ -1569,7 +1571,7 @@ def judge(case, orig=None, base=None):
 
 def worker(group):
     """group: cases that share sources and driver (the variants of one program): one original build."""
-    orig = xform.build_run(group[0]['sources'], group[0]['driver'], base=worker.base)
+    orig = xfast.merged_build_run(group[0]['sources'], group[0]['driver'], base=worker.base)
     out = []
     for case in group:
         r = judge(case, orig, base=worker.base)
